@@ -887,6 +887,10 @@ func splitCount(value, sep, count any) (any, error) {
 	}
 
 	if len(p) == 0 {
+		if c := utf8.RuneCountInString(s) - 1; n > c {
+			n = c
+		}
+
 		r := make([]any, n+1)
 
 		i := 0
@@ -899,6 +903,10 @@ func splitCount(value, sep, count any) (any, error) {
 
 		r[i] = s
 		return r[:i+1], nil
+	}
+
+	if c := strings.Count(s, p); n > c {
+		n = c
 	}
 
 	r := make([]any, n+1)
